@@ -240,6 +240,15 @@ def run(ctx):
         if additive:
             delta = rng.choice([Fraction(0), Fraction(1, 1000), Fraction(-1, 1000), Fraction(1, 2), Fraction(-1, 2), Fraction(9), Fraction(-3)])
             fb = pools.same_dimension_alternative(rng, fa, compose_prob=0.2)
+            if rng.random() < 0.2:
+                # the same quantity in a unit of another STRUCTURE: with a ratio of two units of one dimension in it (a density
+                # times cups over litres, pints per gallon), as products and quotients of quantities leave behind.  The
+                # library may decline to relate the two spellings; if it answers, the pair's size (0.2366, 0.125) counts
+                wide = sorted(d_ for d_, ns in pools.by_dim_moderate.items() if len(ns) >= 2 and any(tuple(d_)) and not any(orc.uses_offset(pools.units[n_]) for n_ in ns))
+                if wide:
+                    x_, y_ = rng.sample(pools.by_dim_moderate[rng.choice(wide)], 2)
+                    fb = list(fb) + [(None, x_, 1), (None, y_, -1)]
+                    ctx.count("operands_with_a_ratio_of_two_units_of_one_dimension")
             try:
                 b = express(amid * (1 + delta), fb)
             except Exception:
